@@ -18,6 +18,17 @@ def cursor_saved_after_the_events_it_covers(w: World):
     em._do_unsafe()
     names = effect_names()
     saves = calls("storage_update_data")
+    check(len(calls("_do_first_init")) == 1 and len(calls("_do_walk_if_needed")) == 1, "every step starts with the first-step logic and the walk-if-needed logic")
+    seen = 0
+    for n in names:
+        if n == "_do_first_init":
+            check(seen == 0, "cursor restoration comes first")
+            seen = 1
+        elif n == "_do_walk_if_needed":
+            check(seen == 1, "then the walk")
+            seen = 2
+        elif n == "read:events" or n == "_process_event":
+            check(seen == 2, "and only then provider events are taken in")
     if len(saves) > 0:
         check(len(saves) == 1, "the cursor is written at most once per step")
         check(names[len(names) - 1] == "storage_update_data", "and that write is the last effect of the step")
@@ -110,6 +121,7 @@ def event_update_records_the_event(w: World):
         o_oid, o_path, o_hash, o_sh, o_sp, o_ex = ent0[other].oid, ent0[other].path, ent0[other].hash, ent0[other].sync_hash, ent0[other].sync_path, ent0[other].exists
         s_sh, s_sp, s_hash, s_path = ent0[side].sync_hash, ent0[side].sync_path, ent0[side].hash, ent0[side].path
         disc0 = ent0.is_discarded
+        s_ex0, s_corrupt0 = ent0[side].exists, ent0[side].is_corrupt
     state.update(side, ev.otype, ev.oid, path=ev.path, hash=ev.hash, exists=ev.exists)
     e = state.lookup_oid(side, ev.oid)
     check(e is not None, "the id is indexed afterwards")
@@ -132,6 +144,9 @@ def event_update_records_the_event(w: World):
     check(in_changeset(state, e), "and the entry is in the pending set")
     if ev.exists is True:
         check(e[side].exists in (EXISTS, LIKELY_TRASHED) or e[side].exists == CORRUPT, "an existing object is recorded as existing")
+        if ent0 is not None and e is ent0 and not s_corrupt0:
+            check(e[side].exists == (LIKELY_TRASHED if s_ex0 == TRASHED else EXISTS),
+                  "an object seen again after its deletion was recorded is only 'likely trashed' (guards against late events); otherwise it exists")
     if ev.exists is False:
         check(e[side].exists == TRASHED or (e[side].exists == CORRUPT and e[side]._saved_exists == TRASHED), "a deletion is recorded as a tombstone")
 
@@ -216,8 +231,16 @@ def validate_root_loads_cursor_and_walk_need(w: World):
     validated0 = em._root_validated
     nw0 = em.need_walk
     c0 = em.cursor
+    prov = w.providers[w.changed]
+    prov_root = truthy(prov.root_path) and truthy(prov.root_oid)
+    rp0, ro0 = em._root_path, em._root_oid
     r = em._validate_root()
     gets = calls("storage_get_data")
+    if not validated0:
+        if prov_root:
+            check(em._root_path == prov.root_path and em._root_oid == prov.root_oid, "a root set on the provider is the root watched")
+        else:
+            check(em._root_path == rp0 and em._root_oid == ro0, "otherwise the configured root stays")
     if validated0:
         check(r is True and len(gets) == 0 and em.cursor == c0 and em.need_walk == nw0, "already validated: nothing is read again")
     elif r:
